@@ -61,7 +61,7 @@ def fs_history(ctx):
                  ("replace a.png by text", lambda: shutil.copy(txt, a)),
                  ("re-create b.png", lambda: shutil.copy(png, b)),
                  ("remove everything", lambda: [os.remove(x) for x in (a, b, c) if os.path.exists(x)])]
-        seqs = {"[a, b]": [a, b], "[a]": [a], "[b]": [b], "[c]": [c], "[a, c]": [a, c]}
+        seqs = {"[a, b]": [a, b], "[b, a]": [b, a], "[a]": [a], "[b]": [b], "[c]": [c], "[a, c]": [a, c], "[b, c, a]": [b, c, a], "[c, b, a, b]": [c, b, a, b]}
         done = []
         for desc, act in steps:
             act()
